@@ -96,6 +96,17 @@ func init() {
 		pu, _ := url.Parse(srv.URL)
 		cli := &http.Client{Transport: &http.Transport{Proxy: http.ProxyURL(pu), DisableKeepAlives: true}, Timeout: 5 * time.Second}
 
+		// thorough: every offset where quick takes a few
+		offsets := func(few []int, n int) []int {
+			if !c.Thorough() {
+				return few
+			}
+			var all []int
+			for i := 0; i < n; i++ {
+				all = append(all, i)
+			}
+			return all
+		}
 		small := rig.Payload(14) // ~300 bytes
 		large := c12Payloads(false)["300KiB"][:200*1024]
 		var idx int64 = -1
@@ -253,8 +264,11 @@ func init() {
 					r.Violate("C13:success-failed:through-Proxy.Run", "success-is-success", fmt.Sprintf("a successful scrape through the server started by Proxy.Run: status %d, %d bytes, %v", code, len(b), err), idx,
 						&c13Replay{Property: "C13", Clause: "success-is-success", Case: c13Case{Kind: "success-through-Proxy.Run", Assigned: true}})
 				}
-				for _, cut := range []int{1, 20, len(small) / 2, len(small) - 1} {
+				for _, cut := range offsets([]int{1, 20, len(small) / 2, len(small) - 1}, len(small)) {
 					cut := cut
+					if cut == 0 {
+						continue // nothing forwarded yet: an error response, covered above
+					}
 					serve = func(req *http.Request) rig.Answer {
 						return rig.Answer{BodyReader: func() io.ReadCloser { return &breakReader{data: small, cut: cut, chunk: 64} }}
 					}
@@ -513,7 +527,7 @@ func init() {
 				{"broken-pipe", &gonet.OpError{Op: "read", Net: "tcp", Err: os.NewSyscallError("read", syscall.EPIPE)}},
 				{"closed-body", errors.New("http: read on closed response body")},
 			} {
-				for _, cut := range []int{0, 1, len(small) / 2, len(small) - 1} {
+				for _, cut := range offsets([]int{0, 1, len(small) / 2, len(small) - 1}, len(small)) {
 					cut, ek := cut, ek
 					one(c13Case{Kind: "body-read-error:" + ek.name, Cut: cut, BodyLen: len(small), Assigned: assigned}, true, small, func() {
 						serve = func(req *http.Request) rig.Answer {
@@ -523,7 +537,21 @@ func init() {
 				}
 			}
 			// large body around block boundaries
-			for _, b := range []int{1, 4096, 65535, 65536, 65537, 131072, len(large) - 1} {
+			largeCuts := []int{1, 4096, 65535, 65536, 65537, 131072, len(large) - 1}
+			if c.Thorough() {
+				// every KiB, and 16 bytes around every 64 KiB boundary
+				largeCuts = nil
+				for b := 1; b < len(large); b += 1024 {
+					largeCuts = append(largeCuts, b)
+				}
+				for b := 65536; b < len(large); b += 65536 {
+					for d := -16; d <= 16; d++ {
+						largeCuts = append(largeCuts, b+d)
+					}
+				}
+				largeCuts = append(largeCuts, len(large)-1)
+			}
+			for _, b := range largeCuts {
 				b := b
 				one(c13Case{Kind: "body-breaks-large", Cut: b, BodyLen: len(large), Assigned: assigned}, true, large, func() {
 					serve = func(req *http.Request) rig.Answer {
@@ -532,7 +560,7 @@ func init() {
 				})
 			}
 			// timeout in the middle of the body
-			for _, cut := range []int{0, 1, 100} {
+			for _, cut := range offsets([]int{0, 1, 100}, len(small)) {
 				cut := cut
 				one(c13Case{Kind: "timeout-mid-body", Cut: cut, BodyLen: len(small), Assigned: assigned}, true, small, func() {
 					serve = func(req *http.Request) rig.Answer {
